@@ -100,13 +100,19 @@ class DictProxy(dict):
         """
         return self.cfg is other.cfg and self.dict_field is other.dict_field
 
-    def update(self, iterable: Optional[KeyValuePairs] = None, **kwargs) -> None:
+    def update(*args, **kwargs) -> None:  # pylint: disable=no-method-argument
+        # like dict.update() the mapping / iterable is positional only: every keyword is an entry,
+        # also ``self=...`` and ``iterable=...``
+        self, *rest = args
+        if len(rest) > 1:
+            raise TypeError("update expected at most 1 argument, got %d" % len(rest))
+        iterable = rest[0] if rest else None  # type: Optional[KeyValuePairs]
         if iterable:
             if isinstance(iterable, DictProxy) and self._is_compatible_proxy(iterable):
                 for key, value in iterable.items():
-                    super().__setitem__(key, value)
+                    super(DictProxy, self).__setitem__(key, value)
             else:
-                super().update(
+                super(DictProxy, self).update(
                     [
                         self._validate(key, value)
                         for key, value in _iterate_dict_like(iterable)
